@@ -60,9 +60,9 @@ const (
 	wireNextHost    = "next.partner.test"
 	wireNext2Host   = "next2.partner.test"
 	wireRefusedHost = "refused.partner.test"
-	wireHostName = "hooks.partner.test"
-	wireOver     = "200c" // what the target does with an exchange beyond the script (only a violating run gets there)
-	wireOverE2   = "allow/200"
+	wireHostName    = "hooks.partner.test"
+	wireOver        = "200c" // what the target does with an exchange beyond the script (only a violating run gets there)
+	wireOverE2      = "allow/200"
 )
 
 // wire behaviours of the target (e1; the part after "allow/" in e2)
@@ -546,10 +546,20 @@ func runWireOnce(wc WireCase, patience time.Duration) wireObs {
 		}
 		pol, host = p, wireHostName
 	}
-	ln, err := net.Listen("tcp", "127.0.0.1:0")
-	if err != nil {
-		o.Infra = "listen: " + err.Error()
-		return o
+	// thousands of short loopback connections leave their ports in TIME_WAIT; when the ephemeral range is exhausted
+	// ("bind: address already in use") the ports come back by themselves: wait for one, and if none comes the case is
+	// not judged (never an alarm, never an infrastructure error)
+	var ln net.Listener
+	var err error
+	for try := 0; ; try++ {
+		if ln, err = net.Listen("tcp", "127.0.0.1:0"); err == nil {
+			break
+		}
+		if try >= 90 {
+			o.Disturbed = "no free loopback port after 90 s: " + err.Error()
+			return o
+		}
+		time.Sleep(time.Second)
 	}
 	addr := ln.Addr().String()
 	_, port, _ := net.SplitHostPort(addr)
